@@ -150,8 +150,12 @@ class CSSCharsetRule(cssrule.CSSRule):
             )
         else:
             try:
-                codecs.lookup(encoding)
-            except LookupError:
+                if codecs.lookup(encoding).name == 'css':
+                    raise LookupError()
+                # codecs which are no text encodings (e.g. ``hex``)
+                # cannot be used
+                ''.encode(encoding)
+            except (LookupError, UnicodeError):
                 self._log.error(
                     'CSSCharsetRule: Unknown (Python) encoding %r.' % encoding
                 )
